@@ -219,6 +219,14 @@ Definition agree_pipeline (plan_of : rng_kind -> seed_plan) (width : nat) (k : r
            (spawned_before : nat) (ns : list pnode) (obs : list pcall) : bool :=
   list_eqb pcall_eqb (ptrain_calls (plan_of k) width retrain (start_index (plan_of k) spawned_before) ns) obs.
 
+(* point of use: digests of the first draws of the generator each component obtained from its options
+   (observed) against those of the positional children of the supplied seed (reference), pairwise distinct *)
+Fixpoint zmem (x : Z) (l : list Z) : bool := match l with [] => false | y :: t => Z.eqb x y || zmem x t end.
+Fixpoint nodupb (l : list Z) : bool := match l with [] => true | x :: t => negb (zmem x t) && nodupb t end.
+Definition zlist_eqb (a b : list Z) : bool := list_eqb Z.eqb a b.
+Definition agree_use (passthrough : bool) (observed reference : list Z) : bool :=
+  passthrough && zlist_eqb observed reference && nodupb observed.
+
 (* a whole pipeline as components with stores; non-trainable nodes carry no frame *)
 Record pcomp := mkComp { cp_name : String.string; cp_frame : option frame; cp_store : store }.
 
